@@ -31,7 +31,11 @@ type Models struct {
 	reach map[*ssa.Function]map[*ssa.Function]bool
 }
 
+// curProg: the program under analysis (one at a time per process), for helpers that have no context parameter.
+var curProg *Prog
+
 func newModels(p *Prog) *Models {
+	curProg = p
 	return &Models{p: p, reach: map[*ssa.Function]map[*ssa.Function]bool{}}
 }
 
